@@ -104,6 +104,7 @@ _MODULES = [
     "behavior",
     "advertising",
     "misc",
+    "derived",  # last: builds on the builders above
 ]
 
 LOAD_ERRORS: dict[str, str] = {}
